@@ -14,6 +14,7 @@ import multiprocessing
 import os
 import random
 import re
+import time
 import warnings
 
 from harness import common
@@ -453,16 +454,19 @@ def _norm_err(s):
 
 
 def key_of(case, clause):
+    nb = sum(1 for x in case['kind'] if x != 'g')
     k = {'partitioner': case['p'], 'clause': clause,
-         'has_barrier': any(x != 'g' for x in case['kind']),
-         'block_gt_width': case['cfg_bs'] > case['nq']}
+         'has_barrier': nb > 0, 'n_barriers': '0' if nb == 0 else '1' if nb == 1 else '2+',
+         'block_gt_width': case['cfg_bs'] > case['nq'],
+         # for QuickPartitioner on a TLC-enumerated circuit: does QuickPart.tla (the model of the unchanged code) predict this outcome?
+         'predicted_by_model': case.get('predicted', 'n/a')}
     if clause == 'pass-raised':
         k['error'] = _norm_err(case['raised'])
     return k
 
 
 def _strip(case):
-    return {k: v for k, v in case.items() if k not in ('recipe', 'npseed', 'cfg_bs', 'src')}
+    return {k: v for k, v in case.items() if k not in ('recipe', 'npseed', 'cfg_bs', 'src', 'predicted')}
 
 
 def run(ctx: Ctx) -> Outcome:
@@ -474,6 +478,7 @@ def run(ctx: Ctx) -> Outcome:
     stats = {'states': 0, 'transitions': 0}
     rng = random.Random(ctx.seed * 7919 + 8)
 
+    t0 = time.time()
     if ctx.replay:
         job = ctx.replay['replay']['job']
         jobs = [(job[0], job[1], job[2], job[3])]
@@ -517,7 +522,9 @@ def run(ctx: Ctx) -> Outcome:
                 jobs.append((rec, pn, bs, rng.randrange(2 ** 31)))
                 srcs.append('random')
 
+    t1 = time.time()
     results = _pool_map(observe, jobs)
+    t2 = time.time()
     cases, skipped = [], {}
     for r, s in zip(results, srcs):
         if 'skip' in r:
@@ -529,8 +536,16 @@ def run(ctx: Ctx) -> Outcome:
         raise MachineryError('no case could be observed')
 
     verdicts, st, tr, _ = common.batch_validate(ABS, ABS_CFG, [_strip(c) for c in cases], ctx.scratch, chunk=3000)
+    t3 = time.time()
     stats['states'] += st
     stats['transitions'] += tr
+    for c in cases:
+        if c['p'] == 'quick' and c['src'] in ('enum', 'l2cex'):
+            kk = (c['cfg_bs'], c['nq'], json.dumps([[1 if o['k'] == 'b' else 0, o['loc']] for o in c['recipe']['ops']]))
+            if kk in emitted:
+                c['predicted'] = ('RAISED' if c['raised'] else _structure_real(c)) in emitted[kk]
+            elif c['src'] == 'l2cex':
+                c['predicted'] = bool(c['raised'])
     rejected = {}
     for idx, step, clause, _ in verdicts:
         c = cases[idx]
@@ -607,6 +622,7 @@ def run(ctx: Ctx) -> Outcome:
             '%s%s NQ=%d ops<=%d: %d states' % (r['config'], '+fix' if r['fix'] else '', r['NQ'], r['MaxOps'], r['states'])
             for r in stats.get('model_runs', [])),
         'model_runs': stats.get('model_runs', []),
+        'timing_s': {'model_checking': round(t1 - t0, 1), 'real_passes': round(t2 - t1, 1), 'trace_validation': round(t3 - t2, 1)},
         'action_coverage': stats.get('action_coverage', {}),
         'l2_counterexamples': len(l2bad),
         'model_vs_code_compared': compared, 'drift': drift,
